@@ -43,7 +43,12 @@ class Lazy:
         self.k = 0
         self.taken = []
 
-    def next(self, n):
+    frozen = False
+    frozen_kinds = ()
+
+    def next(self, n, kind=None):
+        if self.frozen or (kind is not None and kind in self.frozen_kinds):
+            return 0
         if self.k >= len(self.syms):
             self.taken.append(0)
             return 0
@@ -161,22 +166,24 @@ def _body(info, ex0, ex1, ex2, act, bi, faults):
     ca = P.decode(act, 4)
     cb = BSEL[P.decode(bi, len(BSEL))]
     lazy = Lazy(faults)
-    if is_tracing():
-        lazy.resume = True
-        with NoTracing():
-            try:
+
+    def record():
+        taken = list(lazy.taken)
+        conc = dict(ex0=e0, ex1=e1, ex2=e2, act=ca, bi=BSEL.index(cb))
+        for i in range(len(faults)):
+            conc["f%d" % i] = taken[i] if i < len(taken) else 0
+        info["concrete"] = conc
+        return taken
+
+    try:
+        if is_tracing():
+            lazy.resume = True
+            with NoTracing():
                 show = _native(e0, e1, e2, ca, cb, lazy)
-            finally:
-                taken = list(lazy.taken)
-    else:
-        try:
+        else:
             show = _native(e0, e1, e2, ca, cb, lazy)
-        finally:
-            taken = list(lazy.taken)
-    conc = dict(ex0=e0, ex1=e1, ex2=e2, act=ca, bi=BSEL.index(cb))
-    for i in range(len(faults)):
-        conc["f%d" % i] = taken[i] if i < len(taken) else 0
-    info["concrete"] = conc
+    finally:
+        taken = record()
     info["steps"] = 5 + len(taken)
     info["show"] = show
     info["cls"] = "%d%d%d/%d/%d/%s" % (e0, e1, e2, ca, cb, "".join(str(t) for t in taken))
